@@ -359,6 +359,35 @@ func Batch(o Opts) int {
 	code := 0
 	nviol := 0
 	var replayPath string
+	stageB := map[string]any{"run": false}
+	if rr := os.Getenv("QV_RACE_RUNNER"); rr != "" && viol == nil {
+		bb := o.Budget / 2
+		if bb > 4*time.Minute {
+			bb = 4 * time.Minute
+		}
+		fmt.Printf("qsim: stage B (uninstrumented -race build, real parallelism, GOMAXPROCS 16 and 4) for %s\n", bb)
+		rb := StageB(o, rr, 6, bb)
+		if rb.Err != nil {
+			fmt.Fprintln(os.Stderr, "runner:", rb.Err)
+			return 2
+		}
+		stageB = map[string]any{"run": true, "scenarios": rb.Runs, "repetitions_per_scenario": 3, "gomaxprocs": []int{16, 4},
+			"races_reported": 0, "note": "runtime monitoring under the Go race detector: interleavings chosen by the Go scheduler, not by the simulator"}
+		fmt.Printf("qsim: stage B ran %d scenarios x 3 repetitions, ", rb.Runs)
+		if rb.Violation != nil {
+			stageB["races_reported"] = 1
+			path, err := WriteStageBReplay(o, p, rb.Violation)
+			if err != nil {
+				fmt.Fprintln(os.Stderr, "runner: write replay:", err)
+				return 2
+			}
+			fmt.Printf("violation in scenario %d: %s\n", rb.Violation.Idx, rb.Violation.V.Msg)
+			replayPath = path
+			code, nviol = 1, 1
+		} else {
+			fmt.Printf("no race, no divergence from the sequential results\n")
+		}
+	}
 	if viol != nil {
 		nviol = 1
 		LoadSites()
@@ -423,6 +452,9 @@ func Batch(o Opts) int {
 	}
 	for k, v := range p.Extra() {
 		cov[k] = v
+	}
+	if o.Prop == "C20" {
+		cov["stage_b"] = stageB
 	}
 	ev := evidence{PropertyID: o.Prop, Tier: o.Tier, Seed: int64(o.Seed), Level: p.Level(), Coverage: cov,
 		Assumptions: p.Assumptions(), WallS: wall, Violations: nviol}
